@@ -181,9 +181,16 @@ def idAlphabetOK (url : Bool) (id : Bytes) : Bool :=
   | 0x24 :: rest => rest.length == 43 && rest.all (isB64Char url)
   | _ => false
 
+/-- the specification stream of `event.roundtrip` (C03): every relation holds for whatever `Build` returned -/
+def roundtripSpec (ver : Bytes) : String :=
+  "u=1|t=1|h=1|nr=1|cf=1|v12=" ++ (if ((rowOf ver).map (·.domainlessRoomID)).getD false then "1" else "na")
+
 def roundtripOp (ver js : Bytes) : String :=
   match textSkip js with
-  | some s => s
+  -- outside the event models (ill-formed Unicode, a member name that occurs twice) — but NOT outside the property: the
+  -- implementation is still held to the specification (defect P5: `Build` returned events with a repeated member name
+  -- inside content / unsigned, which `NewEventFromUntrustedJSON` refuses)
+  | some s => s ++ "\t" ++ roundtripSpec ver
   | none =>
     match parseTrusted H ver false js with
     | .error (.other w) => if w.startsWith "unmodelled" then "skip:" ++ w else "err:construct"
@@ -322,8 +329,11 @@ def buildOp (args : List String) : String :=
         match stateKey with
         | none => "bad-op"
         | some skv =>
-          let texts := [contenth, unsignedh, sigsh].filterMap (fun a => if a == "~" then none else unhex a)
-          match texts.findSome? textSkip with
+          -- (duplicate member names inside content / unsigned ARE modelled: `Build` refuses them since the fix of defect P5;
+          --  inside a caller-supplied `signatures` value they stay outside the model)
+          let texts := [contenth, unsignedh].filterMap (fun a => if a == "~" then none else unhex a)
+          let sigTexts := [sigsh].filterMap (fun a => if a == "~" then none else unhex a)
+          match (texts.findSome? illFormedSkip).orElse (fun _ => sigTexts.findSome? textSkip) with
           | some s => s
           | none =>
             let pe : EventBuild.Proto := EventBuild.Proto.mk ty sender room skv prevIDs authIDs redactsB dp contentV unsignedV sigsV
@@ -380,6 +390,9 @@ def handle (op : String) (args : Array String) : Option String :=
     | some ver, some t1, some t2 => some (iddiffOp ver t1 t2)
     | _, _, _ => some "bad-op"
   | "build", as => some (buildOp as)
+  -- `event.buildrt`: Build, then the result read back as untrusted input.  `V.C03.build_roundtrip`: whatever the model of
+  -- `Build` returns re-parses with the same ID, unredacted — the model's and the specification's answer is the constant `ok`
+  | "buildrt", _ => some "ok\tok"
   | "headered", [red, th] =>
     match unhex th with
     | some t =>
